@@ -133,6 +133,40 @@ let run (cols : string array) : string =
              | _ -> "?") ops in
            "OK\t" ^ String.concat ";" outs
        | TErr -> "ERR" | TOutOfFuel -> "OUTOFFUEL")
+  (* l_api <hex text> <cfg> <ops>: the tracker's own interface over the whole map (f) and the three maps of the split (a b c), one
+     tracker for all.  M|tag|k marks the k-th occurrence of the tag (in the whole map); G|tag reads the next available of the whole
+     map without marking; C|part|tag reads the next available of that part's values and marks it *)
+  | "l_api" ->
+      (match parse_block4_fields (unhex cols.(1)) with
+       | TOk es ->
+           let b_of s = unhex (hex_of_string s) in
+           let cfg = if String.length cols.(2) > 4 && String.sub cols.(2) 0 4 = "cfg:" then
+               (match String.split_on_char ':' cols.(2) with
+                | _ :: mk :: hc :: cf :: _ ->
+                    { cfg_marker = b_of mk; cfg_c_fields = List.map b_of (List.filter (fun x -> x <> "") (String.split_on_char ',' cf)); cfg_has_c = (hc = "1") }
+                | _ -> get_sequence_config (b_of cols.(2)))
+             else get_sequence_config (b_of cols.(2)) in
+           let ((a, b), c) = split_into_sequences cfg es in
+           let part = function "a" -> a | "b" -> b | "c" -> c | _ -> es in
+           let ops = if cols.(3) = "" then [] else String.split_on_char ';' cols.(3) in
+           let tr = ref [] in
+           let show = function None -> "-" | Some (v, p) -> hex v ^ "@" ^ string_of_int (int_of_n p) in
+           let outs = List.map (fun op ->
+             match String.split_on_char '|' op with
+             | ["M"; tag; k] ->
+                 let vals = values_of es (b_of tag) in
+                 (match vals with
+                  | [] -> "-"
+                  | _ -> let (_, p) = List.nth vals (int_of_string k mod List.length vals) in
+                         tr := mark_consumed !tr (b_of tag) p; "m" ^ string_of_int (int_of_n p))
+             | ["G"; tag] -> show (next_available !tr (b_of tag) (values_of es (b_of tag)))
+             | ["C"; pt; tag] ->
+                 let r = next_available !tr (b_of tag) (values_of (part pt) (b_of tag)) in
+                 (match r with Some (_, p) -> tr := mark_consumed !tr (b_of tag) p | None -> ());
+                 show r
+             | _ -> "?") ops in
+           "OK\t" ^ String.concat ";" outs
+       | TErr -> "ERR" | TOutOfFuel -> "OUTOFFUEL")
   | "l_split" ->
       (match parse_block4_fields (unhex cols.(1)) with
        | TOk es ->
